@@ -556,7 +556,7 @@ def op_mix(scripts):
 
 
 def run_seq_property(res, tag, categories, n_quick, n_thorough, gen_kwargs=None, use_oracle=True,
-                     extra_check=None, nontrivial_min_ops=20, defs=()):
+                     extra_check=None, nontrivial_min_ops=20, defs=(), post=None):
     """generic flow for a property decided by the sequential model:
        proofs -> builds -> corpus + generated scripts -> compare -> oracle -> decide"""
     pid = res.pid
@@ -655,6 +655,8 @@ def run_seq_property(res, tag, categories, n_quick, n_thorough, gen_kwargs=None,
             replay["script"] = ops
             replay["first_mismatch"] = dict(category=cat, op=op, impl=impl[:3000], model=model[:3000])
         res.violation("; ".join(what), replay, nofail=True)
+    if post is not None:
+        post(res)
     return res.finish()
 
 
